@@ -1,7 +1,7 @@
 ---- MODULE TraceMemory ----
 (***************************************************************************************************)
 (* Trace validation of heap releases recorded by the tracing global allocator (I4) while the library  *)
-(* handles secrets (C20).  Events: Arm{scenario, secrets}, Free{size, taint}, Inline{what, found},    *)
+(* handles secrets (C20).  Events: Arm{scenario, secrets}, Free{size, taint}, Frees{count}, Inline{..},*)
 (* Disarm.  A `Free` is a step of Memory.tla's machine only if the block holds no secret; the inline  *)
 (* statement seed must be gone after the statement is dropped.                                        *)
 (***************************************************************************************************)
@@ -14,10 +14,12 @@ Init == l = 1 /\ armed = FALSE /\ nfree = 0
 Is(name) == l <= NRec /\ Rec[l].ev = name
 ArmEv == Is("Arm") /\ ~armed /\ armed' = TRUE /\ nfree' = 0 /\ l' = l + 1
 FreeEv == Is("Free") /\ armed /\ Rec[l].taint = <<>> /\ nfree' = nfree + 1 /\ l' = l + 1 /\ UNCHANGED armed
+\* a run of releases none of which held a secret, logged as one event (long scenarios)
+FreesEv == Is("Frees") /\ armed /\ Rec[l].count >= 1 /\ nfree' = nfree + Rec[l].count /\ l' = l + 1 /\ UNCHANGED armed
 InlineEv == Is("Inline") /\ Rec[l].found = <<>> /\ l' = l + 1 /\ UNCHANGED <<armed, nfree>>
 \* a scenario in which nothing at all was released did not exercise anything
 DisarmEv == Is("Disarm") /\ armed /\ nfree = Rec[l].frees /\ nfree > 0 /\ armed' = FALSE /\ l' = l + 1 /\ UNCHANGED nfree
-Next == ArmEv \/ FreeEv \/ InlineEv \/ DisarmEv
+Next == ArmEv \/ FreeEv \/ FreesEv \/ InlineEv \/ DisarmEv
 Spec == Init /\ [][Next]_vars
 ASSUME TLCSet(41, 0)
 Progress == TLCSet(41, IF TLCGet(41) < l THEN l ELSE TLCGet(41))
